@@ -543,6 +543,10 @@ func genWithProfile(prop string, seed uint64, idx int, r *Rng, p Profile) *Scena
 	if r.Bool(0.25) {
 		startDOY = r.Range(1, yearLen(startYear))
 	}
+	if r3 := NewRng(mix(mix(seed, uint64(idx)), 101)); r3.Bool(0.06) {
+		// calendar edges as simulation start: 1 / 2 January, 31 December, around the leap day
+		startDOY = pickI(r3, []int{1, 1, 2, yearLen(startYear), 59, 60, 61})
+	}
 	sc.Start = Date{startYear, 1, 1}.AddDays(startDOY - 1)
 	sc.AnnualDay, sc.AnnualMonth = r.Range(1, 28), r.Range(1, 12)
 	if r.Bool(0.3) {
